@@ -2,7 +2,7 @@
 # run in a vp snapshot with --with-repo: point the harness at the repo snapshot so seeds applied to /repo do not disturb it
 sed -i "s#path = \"/repo\"#path = \"$VP_RUN_REPO\"#" harness/Cargo.toml
 export VERIF_ROOT=$(pwd)
-for id in C17 C18 C01 C09 C14 C10 C05 C07 C08 C06 C11 C16 C15 C19 C20 C03 C04 C12 C13 C02; do
+for id in ${THOROUGH_IDS:-C17 C18 C01 C09 C14 C10 C05 C07 C08 C06 C11 C16 C15 C19 C20 C03 C04 C12 C13 C02}; do
   s=$(date +%s)
   nice -n 5 bin/check $id thorough > thorough_$id.log 2>&1
   rc=$?
